@@ -938,11 +938,24 @@ impl SctpTransport {
     }
 
     pub async fn send_data(&self, channel_id: u16, data: &[u8]) -> Result<()> {
+        self.ensure_established()?;
         self.inner.send_data(channel_id, data).await
     }
 
     pub async fn send_text(&self, channel_id: u16, data: impl AsRef<str>) -> Result<()> {
+        self.ensure_established()?;
         self.inner.send_text(channel_id, data).await
+    }
+
+    /// User data may only be queued on an established association: before that
+    /// there is no peer verification tag and no agreed TSN, so a DATA chunk would
+    /// leave with tag 0 and the message could be acknowledged by the half-set-up
+    /// peer without ever being delivered.
+    fn ensure_established(&self) -> Result<()> {
+        if *self.inner.state.lock() != SctpState::Connected {
+            return Err(anyhow::anyhow!("sctp association not established"));
+        }
+        Ok(())
     }
 
     pub async fn send_dcep_open(&self, dc: &DataChannel) -> Result<()> {
